@@ -98,7 +98,7 @@ Definition init (n : nat) (n0 : Z) := mkst (repeat (init_rank n0) n) n0 false fa
 Definition zmaxl (l : list Z) : Z :=
   match l with [] => 0 | x :: t => fold_right Z.max x t end.
 
-Fixpoint upd_nth {A} (i : nat) (f : A -> A) (l : list A) : list A :=
+Fixpoint upd_nth {A} (i : nat) (f : A -> A) (l : list A) {struct l} : list A :=
   match l, i with
   | [], _ => []
   | x :: t, O => f x :: t
